@@ -175,6 +175,33 @@ def dictionary_sweep(ctx):
                 ctx.fail('plain script (dictionary sweep): number of statements', text, observed=got, required=want)
 
 
+def affixed_word_sweep(ctx):
+    """NAMES built from every dictionary word (and GO) plus a character that keeps them one name — `go$stage`, `begin#1`, `end_x`, `x_declare`, `@go`,
+    `case1` — in ordinary positions of plain statements: a name is never a keyword, so the script is split at its top-level semicolons only.
+    (The word rules and the dedicated keyword rules of the lexer decide where a word ends; `\\b` holds in front of `$`, `#`, `@`.)"""
+    import props.C18 as C18
+    rng = ctx.rng
+    words = sorted(set(C18.all_dictionary_words()) | {'GO', 'BEGIN', 'DECLARE', 'END', 'CREATE', 'GO 2'})
+    words = [w for w in words if ' ' not in w]
+    affixes = [('', '$x'), ('', '#1'), ('', '_x'), ('', '1'), ('', 'x'), ('x_', ''), ('x$', ''), ('x#', ''), ('@', ''), ('', '$'), ('', '#y')]      # (no bare trailing `#`: `# ` opens a comment)
+    shapes = ['select a from %s where b = 1; select 2', 'update %s set a = 1; select 2; select 3', 'select %s, b from t; select 2']
+    per = ctx.n(3, len(affixes))
+    for w in words:
+        for pre, suf in (rng.sample(affixes, per) if per < len(affixes) else affixes):
+            name = pre + (w if rng.random() < 0.5 else w.lower()) + suf
+            sh = rng.choice(shapes)
+            text = sh % name
+            want = sh.count(';') + 1
+            ctx.evaluations += 1
+            try:
+                got = [len(sqlparse.split(text)), len(sqlparse.parse(text))]
+            except Exception as e:
+                got = 'raised ' + type(e).__name__
+            if got != [want, want]:
+                ctx.fail('plain script (affixed dictionary words as names): number of statements', text, observed=got, required=want)
+    ctx.count('affixed-word names', len(words) * per)
+
+
 REGION_BODIES = ['', ';', 'a;b', ';\n;', "'", '"', '`', '´', '--', '-- ;', '/*', '/* ;', '$$', '$t$', '$1', '$1;$2', 'a\\b;', 'a\nb;c', ' ; ', '# ;', '[;', '];', '(;', ');(',
                  'end;', 'begin;', 'é;ß', ';\r\n;', "x''", '""', '*;/', '* /;', '+;']
 
@@ -340,6 +367,7 @@ def paren_line_sweep(ctx):
 def run(ctx):
     rng = ctx.rng
     dictionary_sweep(ctx)
+    affixed_word_sweep(ctx)
     region_sweep(ctx)
     second_pass_sweeps(ctx)
     paren_line_sweep(ctx)
